@@ -53,8 +53,11 @@ static struct dnode *dn_child_from(struct dnode *n, uint32_t from, QAD *tag) { i
   for (uint32_t i = 0; i < DOM_MAXCH; i++) { if (i >= n->nch) break; if (i >= from && (!tag || tag->f1 == 0 || d_eq(n->ch[i]->tag, tag))) return n->ch[i]; } return 0; }
 void _ZNK8QDomNode17firstChildElementERK7QString(char *ret, char *el, char *tag) { DN(ret) = dn_child_from(DN(el), 0, *(QAD**)tag); }
 void _ZNK8QDomNode18nextSiblingElementERK7QString(char *ret, char *el, char *tag) { struct dnode *n = DN(el); DN(ret) = n && n->parent ? dn_child_from(n->parent, n->idx + 1, *(QAD**)tag) : 0; }
-void _ZNK8QDomNode10firstChildEv(char *ret, char *el) { DN(ret) = dn_child_from(DN(el), 0, 0); }
-void _ZNK8QDomNode11nextSiblingEv(char *ret, char *el) { struct dnode *n = DN(el); DN(ret) = n && n->parent ? dn_child_from(n->parent, n->idx + 1, 0) : 0; }
+/* no loop and no early return here: with concrete child counts the results stay constants for symex, so the real iteration
+   `for (c = el.firstChild(); !c.isNull(); c = c.nextSibling())` ends after exactly nch rounds instead of running to the unwind bound */
+#define DN_CHILD_AT(p, i) (((p) != 0 && (i) < DOM_MAXCH && (i) < (p)->nch) ? (p)->ch[(i)] : (struct dnode*)0)
+void _ZNK8QDomNode10firstChildEv(char *ret, char *el) { struct dnode *n = DN(el); DN(ret) = DN_CHILD_AT(n, 0u); }
+void _ZNK8QDomNode11nextSiblingEv(char *ret, char *el) { struct dnode *n = DN(el); DN(ret) = n ? DN_CHILD_AT(n->parent, n->idx + 1u) : (struct dnode*)0; }
 void _ZNK8QDomNode10parentNodeEv(char *ret, char *el) { struct dnode *n = DN(el); DN(ret) = n ? n->parent : 0; }
 uint8_t _ZNK8QDomNode13hasChildNodesEv(char *el) { struct dnode *n = DN(el); return n && (n->nch > 0 || n->text->f1 > 0); }
 /* ---- tree building (writer and harness) ---- */
